@@ -213,7 +213,8 @@ func (db *DB) Put(key []byte, value []byte) error {
 
 	verifPoint("put.appended", 0)
 	// 更新索引, 并维护无效数据量
-	if oldPos := db.index.Put(key, pos); oldPos != nil {
+	// 索引必须保存 key 的副本: B 树和跳表索引直接保存传入的切片, 调用方之后可能复用或改写它
+	if oldPos := db.index.Put(append([]byte(nil), key...), pos); oldPos != nil {
 		db.reclaimSize += int64(oldPos.Size)
 	}
 
